@@ -403,6 +403,8 @@ outer:
 							ci: md.CaptureInfo,
 							p:  newPacket,
 						}
+						// the transport layer is the one of the reassembled datagram, not of its last fragment
+						parsed = newPacket
 					}
 				case layers.LayerTypeIPv6:
 					// TODO: implement ipv6 reassembly (if needed, unsure)
